@@ -132,10 +132,15 @@ fn emit_conditional(
     // First pass: emit only condition tokens to determine their lengths,
     // so we can compute the absolute index of each branch array in the parent.
     let mut cond_tokens_list: Vec<Option<Vec<Value>>> = Vec::new();
+    // Where the next condition's tokens will stand in the parent container (behind
+    // their "ev"): a string literal with inline logic in a condition builds paths from it.
+    let mut cond_scope = scope.clone();
+    cond_scope.param_offset = conditional_index + 1;
     for (branch_condition, _) in branches.iter() {
         let cond_tokens = if let Some(cond) = branch_condition {
             let mut tokens = Vec::new();
-            emit_condition(cond, &mut tokens, scope, context)?;
+            emit_condition(cond, &mut tokens, &cond_scope, context)?;
+            cond_scope.param_offset += tokens.len() + 3;
             Some(tokens)
         } else {
             None
@@ -231,7 +236,10 @@ fn emit_switch_conditional(
 
     // Build value expression tokens: ev, <value_tokens>, /ev
     let mut value_tokens = Vec::new();
-    emit_expression_ctx(value, &mut value_tokens, Some(context), Some(scope));
+    // The tokens will stand behind the "ev" at `switch_index`.
+    let mut value_scope = scope.clone();
+    value_scope.param_offset = switch_index + 1;
+    emit_expression_ctx(value, &mut value_tokens, Some(context), Some(&value_scope));
     let preamble_len = value_tokens.len() + 2; // ev + value_tokens + /ev
 
     let num_branches = branches.len();
@@ -285,7 +293,15 @@ fn emit_switch_conditional(
         if let Some(case_expr) = case_expr {
             // Case branch: [du, ev, case_tokens, ==, /ev, {->:.^.b, c:true}, {b:[...]}]
             let mut case_tokens = Vec::new();
-            emit_expression_ctx(case_expr, &mut case_tokens, Some(context), Some(scope));
+            // The tokens will stand behind "du", "ev" in the branch's array.
+            let mut case_scope = scope.at_path(joined_path(&scope.path, branch_array_index));
+            case_scope.param_offset = 2;
+            emit_expression_ctx(
+                case_expr,
+                &mut case_tokens,
+                Some(context),
+                Some(&case_scope),
+            );
             let mut branch_array = vec![json!("du"), json!("ev")];
             branch_array.extend(case_tokens);
             branch_array.push(json!("=="));
